@@ -105,11 +105,38 @@ func xmlUnmarshalElement(el *etree.Element, obj interface{}) error {
 	}
 	data = bytes.ReplaceAll(data, []byte("]]>"), []byte("]]&gt;"))
 
-	err = xml.Unmarshal(data, obj)
+	err = xml.NewTokenDecoder(nsDeclFilter{xml.NewDecoder(bytes.NewReader(data))}).Decode(obj)
 	if err != nil {
 		return err
 	}
 	return nil
+}
+
+// nsDeclFilter hands the tokens of a decoder on without the namespace
+// declarations in the attribute lists (element and attribute names are already
+// resolved at that point). encoding/xml matches a field tagged `xml:"ID,attr"`
+// by local name in any name space, so that an unused declaration such as
+// xmlns:ID="..." - which exclusive canonicalization leaves out of the signed
+// content, and which anybody can therefore add to a signed message - would
+// otherwise be read as the ID attribute.
+type nsDeclFilter struct {
+	decoder *xml.Decoder
+}
+
+func (f nsDeclFilter) Token() (xml.Token, error) {
+	token, err := f.decoder.Token()
+	if start, ok := token.(xml.StartElement); ok {
+		attrs := make([]xml.Attr, 0, len(start.Attr))
+		for _, attr := range start.Attr {
+			if attr.Name.Space == "xmlns" || (attr.Name.Space == "" && attr.Name.Local == "xmlns") {
+				continue
+			}
+			attrs = append(attrs, attr)
+		}
+		start.Attr = attrs
+		return start, err
+	}
+	return token, err
 }
 
 func (sp *SAMLServiceProvider) getDecryptCert() (*tls.Certificate, error) {
@@ -466,7 +493,7 @@ func xmlUnmarshalIgnoringCharset(data []byte, v interface{}) error {
 	decoder.CharsetReader = func(charset string, input io.Reader) (io.Reader, error) {
 		return input, nil
 	}
-	return decoder.Decode(v)
+	return xml.NewTokenDecoder(nsDeclFilter{decoder}).Decode(v)
 }
 
 // maybeDeflate invokes the passed decoder over the passed data. If an error is
